@@ -75,6 +75,13 @@ pub struct UGx {
     pub up: UH,
 }
 
+/// Third type of `two.ts`; as text `UG2` sorts before `UG<T>` (`2` < `<`), as an identifier after `UG`.
+#[derive(TS, Serialize, Deserialize, Clone, Debug, Samples)]
+#[ts(export_to = "two.ts")]
+pub struct UG2 {
+    pub v: i32,
+}
+
 #[derive(TS, Serialize, Deserialize, Clone, Debug, Samples)]
 #[ts(export_to = "../escape/UH.ts")]
 pub struct UH {
@@ -163,6 +170,7 @@ pub fn registry() -> Vec<TypeEntry> {
         TypeEntry::serde::<UF>("UF", "UF"),
         TypeEntry::serde::<UG<u8>>("UG", "UG<u8>"),
         TypeEntry::serde::<UGx>("UGx", "UGx"),
+        TypeEntry::serde::<UG2>("UG2", "UG2"),
         TypeEntry::serde::<UH>("UH", "UH"),
         TypeEntry::serde::<UI>("UI", "UI"),
         TypeEntry::ts::<Foo>("Foo", "Foo"),
